@@ -258,3 +258,30 @@ def same_rows_same_order(ctx, q, got, src, what, node=None, module=None):
         ctx.finding(q, what, f"{what}: the result must hold the same particles in the same order as the source, but its rows are "
                     f"'{gs.chain() if gs is not None else 'unknown'}' (source: '{ss.chain() if ss is not None else 'unknown'}')", node, module)
     return ok
+
+
+def selectors_obligation(prop):
+    """cross-cutting def-use rule: a named row selector is not used after the column it tests has been rewritten"""
+    from sa import dataflow
+    from sa.report import Obligation
+    from .effects_entries import ENTRIES
+
+    def run(ctx):
+        quals = [q for q in ENTRIES[prop] if ctx.prog.has(q)]
+        mods = sorted({q.split(".")[0] for q in quals})
+        n_fn = n_sel = 0
+        for q, m, fn in ctx.prog.functions():
+            if q.split(".")[0] not in mods:
+                continue
+            n_fn += 1
+            found, examined = dataflow.stale_selectors(m, fn)
+            n_sel += examined
+            for d, w, u, name, tab, col in found:
+                ctx.finding(q, f"selector over {tab}[{col}] reused after the column was rewritten",
+                            f"the row selector `{name}` is computed from {tab}[{col}] (line {d.lineno}), then {tab}[{col}] is rewritten "
+                            f"(`{norm_text(w)[:70]}`), and the selector is used again afterwards (`{norm_text(u)[:70]}`): it still describes the "
+                            "rows as they were before the rewrite", u, m)
+        ctx.count(n_fn, {"modules": mods, "functions scanned": n_fn, "named selectors examined": n_sel})
+
+    return Obligation("OX.S", "named row selectors are not reused after the column they test was rewritten (def-use rule over the property's modules)",
+                      run, floor=1)
